@@ -67,4 +67,259 @@ pub mod verif {
         core::mem::forget(r);
         a
     }
+
+    // ---- association list standing in for std's HashMap inside `EncodedScopeItems` ---------------
+    //
+    // hashbrown's SIMD group probing does not finish under CBMC (one insert: > 15 min of symbolic
+    // execution). `EncodedScopeItems` only uses `new`, `entry(..).or_default()`, `len`, `values`
+    // and `iter`; the substitution `otlp:scope-items-map` (stubs/otlp.toml) swaps the import in
+    // data.rs for this type. Iteration order of a HashMap is unspecified; insertion order is one
+    // of its possible orders. std's HashMap itself is trusted.
+    pub struct VecMap<K, V> {
+        // inline, fixed capacity: the harnesses use at most two scopes, and a heap-allocated
+        // list inside the heap-allocated request vector is one pointer level too many for CBMC
+        slots: [Option<(K, V)>; 2],
+    }
+
+    impl<K, V> Default for VecMap<K, V> {
+        fn default() -> Self {
+            VecMap { slots: [None, None] }
+        }
+    }
+
+    pub struct VecEntry<'a, K, V> {
+        map: &'a mut VecMap<K, V>,
+        key: K,
+    }
+
+    impl<K: PartialEq, V> VecMap<K, V> {
+        pub fn new() -> Self {
+            VecMap { slots: [None, None] }
+        }
+
+        pub fn entry(&mut self, key: K) -> VecEntry<'_, K, V> {
+            VecEntry { map: self, key }
+        }
+
+        pub fn len(&self) -> usize {
+            self.slots.iter().filter(|s| s.is_some()).count()
+        }
+
+        pub fn values(&self) -> impl Iterator<Item = &V> {
+            self.slots.iter().filter_map(|s| s.as_ref().map(|(_, v)| v))
+        }
+
+        pub fn iter(&self) -> impl Iterator<Item = (&K, &V)> {
+            self.slots.iter().filter_map(|s| s.as_ref().map(|(k, v)| (k, v)))
+        }
+    }
+
+    impl<'a, K: PartialEq, V: Default> VecEntry<'a, K, V> {
+        pub fn or_default(self) -> &'a mut V {
+            let VecEntry { map, key } = self;
+            let mut at = 2;
+            let mut i = 0;
+            while i < 2 {
+                match &map.slots[i] {
+                    Some((k, _)) => {
+                        if *k == key {
+                            at = i;
+                            break;
+                        }
+                    }
+                    None => {
+                        map.slots[i] = Some((key, V::default()));
+                        at = i;
+                        break;
+                    }
+                }
+                i += 1;
+            }
+            match map.slots.get_mut(at) {
+                Some(Some((_, v))) => v,
+                _ => panic!("verif: VecMap holds at most two keys"),
+            }
+        }
+    }
+
+    // ---- C12: the batching channel and the request loop of `OtlpTransport::send` -------------
+
+    /// Door to the crate-private `Channel` (the `emit_batcher::Channel` of every OTLP signal).
+    pub struct VChannel(pub(crate) Channel);
+
+    impl VChannel {
+        /// `<Channel as emit_batcher::Channel>::new()`
+        pub fn new() -> Self {
+            VChannel(<Channel as emit_batcher::Channel>::new())
+        }
+
+        /// `<Channel as emit_batcher::Channel>::push` of an event in scope `a` whose encoded
+        /// payload is `payload_len` bytes long (<= 3), with the given request size limit.
+        pub fn push(&mut self, payload_len: usize, max_request_size_bytes: usize) {
+            emit_batcher::Channel::push(
+                &mut self.0,
+                ChannelItem {
+                    max_request_size_bytes,
+                    event: EncodedEvent {
+                        scope: emit::Path::new_raw("a"),
+                        // one allocation of constant size per arm: an allocation of symbolic
+                        // size makes CBMC's array post-processing exhaust memory
+                        payload: EncodedPayload::Json(match payload_len {
+                            0 => sval_json::JsonStr::boxed(""),
+                            1 => sval_json::JsonStr::boxed("x"),
+                            2 => sval_json::JsonStr::boxed("xx"),
+                            3 => sval_json::JsonStr::boxed("xxx"),
+                            _ => panic!("verif: payload_len > 3"),
+                        }),
+                    },
+                },
+            )
+        }
+
+        /// As `push`, for a *symbolic* `payload_len <= 3`: the payload is a 3-byte allocation of
+        /// which only the first `payload_len` bytes are exposed (a symbolic allocation size, or a
+        /// symbolic choice between allocations, exhausts CBMC's array post-processing). The box
+        /// must never be freed: channels filled this way are leaked by the harness.
+        pub fn push_leaky(&mut self, payload_len: usize, max_request_size_bytes: usize) {
+            assert!(payload_len <= 3);
+            let raw: *mut str = Box::into_raw(Box::<str>::from("xxx"));
+            let short = core::ptr::slice_from_raw_parts_mut(raw as *mut u8, payload_len) as *mut str;
+            let payload = sval_json::JsonStr::boxed(unsafe { Box::from_raw(short) });
+            emit_batcher::Channel::push(
+                &mut self.0,
+                ChannelItem {
+                    max_request_size_bytes,
+                    event: EncodedEvent {
+                        scope: emit::Path::new_raw("a"),
+                        payload: EncodedPayload::Json(payload),
+                    },
+                },
+            )
+        }
+
+        /// `<Channel as emit_batcher::Channel>::len`
+        pub fn len(&self) -> usize {
+            emit_batcher::Channel::len(&self.0)
+        }
+
+        /// `<Channel as emit_batcher::Channel>::clear`
+        pub fn clear(&mut self) {
+            emit_batcher::Channel::clear(&mut self.0)
+        }
+
+        /// Constructor from explicit state: a batch of `n` requests without items. The request
+        /// loop of `send` never looks inside a request; payload-carrying requests make the drop
+        /// glue of the popped requests (both payload representations, per element) exhaust memory.
+        pub fn with_empty_requests(n: usize) -> Self {
+            let mut requests = Vec::with_capacity(n);
+            let mut i = 0;
+            while i < n {
+                requests.push(EncodedScopeItems::new());
+                i += 1;
+            }
+            VChannel(Channel {
+                requests,
+                current_request_size_bytes: 0,
+                total_items: 0,
+            })
+        }
+
+        /// read-only: where request `r` lives (requests without items can only be told apart by
+        /// their slot in the batch's request vector)
+        pub fn request_addr(&self, r: usize) -> usize {
+            &self.0.requests[r] as *const EncodedScopeItems as usize
+        }
+
+        /// read-only: number of requests
+        pub fn n_requests(&self) -> usize {
+            self.0.requests.len()
+        }
+
+        /// read-only: number of items of request `r`
+        pub fn request_items(&self, r: usize) -> usize {
+            self.0.requests[r].total_items()
+        }
+
+        /// read-only: payload length of item `i` of request `r` (all items are in scope `a`)
+        pub fn item_len(&self, r: usize, i: usize) -> usize {
+            match self.0.requests[r].items().next() {
+                // not `EncodedPayload::len()`: its protobuf arm follows pointers, and CBMC does not
+                // resolve the representation of a payload read back from the heap
+                Some((_, items)) => match &items[i] {
+                    EncodedPayload::Json(json) => json.as_str().len(),
+                    EncodedPayload::Proto(_) => panic!("verif: the harness only pushes JSON payloads"),
+                },
+                None => panic!("verif: request without scope"),
+            }
+        }
+    }
+
+    /// Number of calls to the (substituted) network request so far.
+    pub static mut ATTEMPTS: usize = 0;
+    /// Scripted outcome of the i-th network request: `true` = acknowledged, `false` = failed (retryable).
+    pub static mut SCRIPT: [bool; 8] = [true; 8];
+    /// Address of the request handed to the i-th network request.
+    pub static mut ATTEMPTED: [usize; 8] = [0; 8];
+
+    #[derive(Debug)]
+    struct ScriptedFailure;
+    impl std::fmt::Display for ScriptedFailure {
+        fn fmt(&self, f: &mut std::fmt::Formatter) -> std::fmt::Result {
+            f.write_str("scripted failure")
+        }
+    }
+    impl std::error::Error for ScriptedFailure {}
+
+    /// Stand-in for `OtlpTransport::send_batch` (the hyper/tokio network request), put in place
+    /// by the call-site substitution `otlp:send-batch-call`: records which request it was handed
+    /// and answers with the scripted outcome (failures are retryable, as every transport failure is).
+    pub(crate) async fn send_batch_outcome<R>(
+        _http: &HttpConnection,
+        _resource: &Option<EncodedPayload>,
+        _request_encoder: &ClientRequestEncoder<R>,
+        batch: &EncodedScopeItems,
+    ) -> Result<(), BatchError<()>> {
+        unsafe {
+            let i = ATTEMPTS;
+            ATTEMPTS += 1;
+            ATTEMPTED[i] = batch as *const EncodedScopeItems as usize;
+            if SCRIPT[i] {
+                Ok(())
+            } else {
+                Err(BatchError::retry(ScriptedFailure, ()))
+            }
+        }
+    }
+
+    /// Door to the crate-private `OtlpTransport`, around a connection that was never connected
+    /// (`HttpConnection::verif_unconnected`, inject/otlp_http.rs): with the network request
+    /// substituted, `send` never touches the connection.
+    pub struct VTransport(OtlpTransport<crate::data::logs::LogsRequestEncoder>);
+
+    impl VTransport {
+        pub fn new() -> Self {
+            VTransport(OtlpTransport::Http {
+                http: HttpConnection::verif_unconnected(Arc::new(InternalMetrics::default())),
+                resource: None,
+                request_encoder: ClientRequestEncoder::new(
+                    Encoding::Json,
+                    crate::data::logs::LogsRequestEncoder::default(),
+                ),
+            })
+        }
+
+        /// `OtlpTransport::send(channel)` driven to completion: with the network request
+        /// substituted the future has no suspension point, so one poll must complete it.
+        /// Returns `(Ok?, retryable remainder)`.
+        pub fn send(&self, channel: VChannel) -> (bool, Option<VChannel>) {
+            let fut = self.0.send(channel.0);
+            let mut fut = core::pin::pin!(fut);
+            let mut cx = std::task::Context::from_waker(std::task::Waker::noop());
+            match fut.as_mut().poll(&mut cx) {
+                std::task::Poll::Ready(Ok(())) => (true, None),
+                std::task::Poll::Ready(Err(e)) => (false, e.into_retryable().map(VChannel)),
+                std::task::Poll::Pending => panic!("verif: send did not complete in one poll"),
+            }
+        }
+    }
 }
